@@ -41,17 +41,17 @@ type VerifSnapshot struct {
 	Worker      bool
 }
 
-// VerifState returns a snapshot of ep if its protocol work mutex is free (the
-// protocol goroutine is idle), otherwise ok is false.
+// VerifState returns a snapshot of ep if its protocol goroutine is idle or has
+// exited; otherwise ok is false and only State/HardError/Worker are set.
 func VerifState(ep tcpip.Endpoint) (snap VerifSnapshot, ok bool) {
 	e, isTCP := ep.(*endpoint)
 	if !isTCP {
 		return snap, false
 	}
-	if !e.workMu.TryLock() {
-		return snap, false
+	locked := e.workMu.TryLock()
+	if locked {
+		defer e.workMu.Unlock()
 	}
-	defer e.workMu.Unlock()
 	e.mu.RLock()
 	snap.State = int(e.state)
 	if e.hardError != nil {
@@ -59,6 +59,12 @@ func VerifState(ep tcpip.Endpoint) (snap VerifSnapshot, ok bool) {
 	}
 	snap.Worker = e.workerRunning
 	e.mu.RUnlock()
+	if !locked && snap.Worker {
+		// the protocol goroutine is busy: only the fields above are safe to read
+		return snap, false
+	}
+	// Either we hold the work mutex, or the protocol goroutine has exited (it
+	// leaves the mutex locked) and nothing mutates the fields below any more.
 	e.sndBufMu.Lock()
 	snap.SndClosed = e.sndClosed
 	snap.SndBufUsed = e.sndBufUsed
